@@ -3,6 +3,7 @@ package pass
 import (
 	"github.com/mmcloughlin/avo/ir"
 	"github.com/mmcloughlin/avo/operand"
+	"github.com/mmcloughlin/avo/reg"
 )
 
 // PruneJumpToFollowingLabel removes jump instructions that target an
@@ -76,12 +77,16 @@ func PruneDanglingLabels(fn *ir.Function) error {
 func PruneSelfMoves(fn *ir.Function) error {
 	return removeinstructions(fn, func(i *ir.Instruction) bool {
 		switch i.Opcode {
-		case "MOVB", "MOVW", "MOVL", "MOVQ":
+		// MOVL is excluded: a 32-bit move to itself still zero-extends into
+		// the upper half of the 64-bit register.
+		case "MOVB", "MOVW", "MOVQ":
 		default:
 			return false
 		}
 
-		return operand.IsRegister(i.Operands[0]) && operand.IsRegister(i.Operands[1]) && i.Operands[0] == i.Operands[1]
+		// Only general-purpose registers: MOVQ between vector registers
+		// clears the upper bits of the destination.
+		return operand.IsRegisterKind(i.Operands[0], reg.KindGP) && operand.IsRegisterKind(i.Operands[1], reg.KindGP) && i.Operands[0] == i.Operands[1]
 	})
 }
 
